@@ -173,6 +173,11 @@ func storeOracle(w *World) string {
 	case *util.LevelNodeDB:
 		_ = d.GetCurrent().Iterate(context.Background(), visit("layered store, current level"))
 		_ = d.GetPrev().Iterate(context.Background(), visit("layered store, previous level"))
+		if pl, ok := d.GetPrev().(*util.LevelNodeDB); ok {
+			_ = pl.GetCurrent().Iterate(context.Background(), visit("layered store below, current level"))
+		}
+	case *util.PNodeDB:
+		_ = d.Iterate(context.Background(), visit("persistent store"))
 	}
 	if fail != "" {
 		return fail
@@ -225,6 +230,8 @@ func C14(tier rt.Tier) int {
 			{name: "mem-adversarial-values", kind: Mem, paths: p2[:13], vals: adversarialValues[:4], depth: 3, version: 1},
 			{name: "level-mem-versions", kind: LevelMem, paths: p2[:9], vals: []string{":", "\x00"}, flush: true, bump: 2, depth: 4, version: -1},
 			{name: "level-pnodedb-huge-version", kind: LevelP, paths: p2[:9], vals: []string{"::x:", "\xff\xff"}, flush: true, bump: 1, depth: 4, version: 1 << 40},
+			{name: "pnodedb-direct", kind: PDirect, paths: p2[:9], vals: []string{":", "\xff\xff"}, flush: true, bump: 1, depth: 4, version: 2},
+			{name: "level-over-level", kind: LevelL, paths: p2[:9], vals: []string{"::x:"}, flush: true, depth: 4, version: 1},
 		}
 	} else {
 		per = 5 * time.Minute
@@ -233,6 +240,8 @@ func C14(tier rt.Tier) int {
 			{name: "level-mem-versions", kind: LevelMem, paths: p2, vals: adversarialValues[:3], flush: true, bump: 2, depth: 5, version: -1},
 			{name: "level-pnodedb-huge-version", kind: LevelP, paths: p2, vals: adversarialValues[1:4], flush: true, bump: 2, depth: 5, version: 1 << 40},
 			{name: "mem-3symbols", kind: Mem, paths: Paths("0af", 4), vals: adversarialValues[:2], depth: 4, version: 0},
+			{name: "pnodedb-direct", kind: PDirect, paths: p2, vals: adversarialValues[:3], flush: true, bump: 2, depth: 5, version: 2},
+			{name: "level-over-level", kind: LevelL, paths: p2, vals: adversarialValues[1:3], flush: true, depth: 5, version: 1},
 		}
 	}
 	if rt.SubRun {
@@ -257,7 +266,7 @@ func C14(tier rt.Tier) int {
 		sizeSweep(rep, "stored-under-own-hash", lens, []StoreKind{Mem, LevelP}, 3, storeOracle, nil)
 	}
 	rep.RunVariant()
-	rep.Set("rule", "BFS over all histories with separator-laden/binary values and negative/zero/huge versions on memory, layered and persistent(stand-in) stores; at every state every node of every store level must be keyed by GetHashBytes(), CreateNode(Encode(n)) must have the same hash and encoding, and a trie re-read from the store must reference every node by its recomputed hash")
+	rep.Set("rule", "BFS over all histories with separator-laden/binary values and negative/zero/huge versions on memory, layered, doubly layered and persistent(stand-in) stores, the trie also sitting directly on the persistent store; at every state every node of every store level must be keyed by GetHashBytes(), CreateNode(Encode(n)) must have the same hash and encoding, and a trie re-read from the store must reference every node by its recomputed hash")
 	rep.Assumption("RocksDB is replaced by an in-memory write-log stand-in; PNodeDB encoding/decoding code is real")
 	return rep.End()
 }
